@@ -581,15 +581,22 @@ func (d *Decoder) newCoderAndShards() (rsec16.Coder, [][]byte, error) {
 		return rsec16.Coder{}, nil, errors.New("no file integrity info")
 	}
 
-	if len(d.parityShards) == 0 {
-		return rsec16.Coder{}, nil, errors.New("no parity shards")
-	}
-
 	var dataShards [][]byte
 	for _, info := range d.fileIntegrityInfos {
 		for _, shardInfo := range info.shardInfos {
 			dataShards = append(dataShards, shardInfo.data)
 		}
+	}
+
+	if len(d.parityShards) == 0 {
+		// Nothing can be reconstructed, but files whose
+		// slices were all found can still be reassembled.
+		for _, dataShard := range dataShards {
+			if dataShard == nil {
+				return rsec16.Coder{}, nil, rsec16.NotEnoughParityShardsError{}
+			}
+		}
+		return rsec16.Coder{}, dataShards, nil
 	}
 	coder, err := rsec16.NewCoderPAR2Vandermonde(len(dataShards), len(d.parityShards), d.numGoroutines)
 	if err != nil {
@@ -680,7 +687,7 @@ func (d *Decoder) Repair(checkParity bool) ([]string, error) {
 		return nil, err
 	}
 
-	if checkParity {
+	if checkParity && len(d.parityShards) > 0 {
 		computedParityShards := coder.GenerateParity(dataShards)
 		for i, shard := range d.parityShards {
 			if len(shard) == 0 {
